@@ -86,6 +86,12 @@ class C15(Property):
             # bucket order
             {"hash": "murmur", "mod": 0, "r": 0, "nodes": [S("node1"), S("node11")],
              "ops": [["add", 0], ["add", 1], ["remove", 0], ["add", 0]], "probes": P},
+            # EXHIBIT of the known finding collision-bucket-insertion-order: Add(node1);Add(node11), empty the
+            # ring, Add(node11);Add(node1): same node map after op 2 and op 6, different answers for the keys
+            # landing in the ten slots "node110".."node119" shared by the two nodes (real murmur3).  "strict"
+            # makes prop_ok evaluate the order clauses although the universe has collisions.
+            {"hash": "murmur", "mod": 0, "r": 0, "nodes": [S("node1"), S("node11")], "strict": True,
+             "ops": [["add", 0], ["add", 1], ["remove", 0], ["remove", 1], ["add", 1], ["add", 0]], "probes": P},
             # equal reprs replace each other; zero replicas; > max
             {"hash": "murmur", "mod": 0, "r": 120, "nodes": [I(7), S("7"), ST("7"), S("alpha")],
              "ops": [["add", 0], ["add", 3], ["addr", 1, 5], ["addw", 2, 150], ["addr", 3, 0], ["remove", 0], ["remove", 3]],
@@ -167,12 +173,62 @@ class C15(Property):
                 ops.append("ORemove %s" % node(o[1]))
         ps = clist(["(%d, %s)" % (rank[int(a)], b) for a, b in obs["ph"]])
         gets = clist([clist([cz(g) for g in row]) for row in obs["gets"]])
-        return "mkCase %s %s %s %s %s" % (cz(obs["r"]), clist(rows), clist(ops), ps, gets)
+        return "mkCase %s %s %s %s %s %s" % (cz(obs["r"]), clist(rows), clist(ops), ps, gets,
+                                             "true" if case.get("strict") else "false")
 
-    # ---- the shape of the Remove defect (pending/C15-remove-foreign-keys.diff) ----
+    # ---- known finding: collision-bucket-insertion-order ---------------------------------
+    def _core_ok(self, case, obs):
+        """The clauses that hold for every hash, recomputed on the observations: every answer is a value
+        owning the first live virtual-node hash >= the key's hash (wrapping), none iff there is no live
+        virtual node, never a panic / unknown value.  (Mirror of Check.core_ok; used only to classify.)"""
+        import bisect
+        R = obs["r"]
+        php = [int(a) for a, _ in obs["ph"]]
+        live = {}   # repr -> (effective replicas, value index)
+
+        def row_ok(row):
+            vs = []
+            for rp, (r, v) in live.items():
+                k = obs["reprs"].index(rp)
+                vs += [(int(h), v) for h in obs["vh"][k][:r]]
+            if not vs:
+                return all(g == -1 for g in row)
+            hs = sorted(set(h for h, _ in vs))
+            for hp, g in zip(php, row):
+                i = bisect.bisect_left(hs, hp)
+                succ = hs[i] if i < len(hs) else hs[0]
+                if g not in set(v for h, v in vs if h == succ):
+                    return False
+            return True
+
+        if not row_ok(obs["gets"][0]):
+            return False
+        for o, row in zip(case["ops"], obs["gets"][1:]):
+            rp = obs["reprs"][o[1]]
+            if o[0] == "remove":
+                live.pop(rp, None)
+            else:
+                r = R if o[0] == "add" else o[2] if o[0] == "addr" else int(R * o[2] / 100)
+                live.pop(rp, None)
+                live[rp] = (max(0, min(r, R)), o[1])
+            if not row_ok(row):
+                return False
+        return len(obs["gets"]) == len(case["ops"]) + 1
+
     def known(self, case, obs):
-        """'remove-deletes-foreign-keys' iff some Remove / re-Add in the history runs on a node that holds
-        fewer than h.replicas virtual nodes and one of its never-added index hashes equals a live key."""
+        """'collision-bucket-insertion-order' iff the universe is NOT collision-free and every answer is still
+        an owner of the successor slot (so membership, none-iff-empty, no-panic and removed-never-returned all
+        hold): the only way prop_ok can then fail is the choice inside a slot shared by several nodes, i.e. the
+        order clauses (same node map => same answers; keys move only to/from the operation's node)."""
+        if self._cf(obs):
+            return None
+        if not self._core_ok(case, obs):
+            return None
+        return "collision-bucket-insertion-order"
+
+    def _f18_shape(self, case, obs):
+        """Shape of the repaired defect F18: a Remove / re-Add runs on a node holding fewer than h.replicas
+        virtual nodes while one of its never-added index hashes equals a live key of another node."""
         R = obs["r"]
         live = {}   # repr -> effective replicas
         for o in case["ops"]:
@@ -185,13 +241,13 @@ class C15(Property):
                     kq = obs["reprs"].index(q)
                     others.update(obs["vh"][kq][:rq] if q != rp else [])
                 if any(h in others for h in mine[max(live[rp], 0):R]):
-                    return "remove-deletes-foreign-keys"
+                    return True
             if o[0] == "remove":
                 live.pop(rp, None)
             else:
                 r = R if o[0] == "add" else o[2] if o[0] == "addr" else int(R * o[2] / 100)
                 live[rp] = max(0, min(r, R))
-        return None
+        return False
 
     # ---- evidence ------------------------------------------------------------
     def _cf(self, obs):
@@ -223,8 +279,10 @@ class C15(Property):
             fs.append("equal_reprs")
         if any(g == -2 for row in obs["gets"] for g in row):
             fs.append("get_panicked")
-        if self.known(case, obs):
-            fs.append("shape:remove-deletes-foreign-keys")
+        if self._f18_shape(case, obs):
+            fs.append("shape:F18-remove-on-low-weight-node-with-foreign-hash")
+        if case.get("strict"):
+            fs.append("strict_order_clauses")
         return fs
 
     def describe_failure(self, case, obs):
